@@ -346,6 +346,8 @@ pub fn run_case(ctx: &mut CaseCtx) -> CaseResult {
         return dst_case(ctx);
     }
     let rng = &mut ctx.rng;
+    // equivalent builder call sequences (see flw::set_build_variant)
+    flw::set_build_variant(rng.below(8) as u8);
     let rotation = !rng.chance(1, 8);
     let naming = if rotation {
         flw::gen_naming(rng, true)
